@@ -16,6 +16,17 @@ QSizes == {None, 8, 12}
 QAligns == {None, 2, 4, 6}
 QPalette == {"u8", "u16", "u32", "u64", "cptr", "arr8x3", "unk2", "N", "E", "X", "arr32x0"}
 
+T1Palette == {"u8", "u16", "u32", "u64", "cptr", "arr8x3"}
+T1Sizes == {None, 16}
+T1Aligns == {None, 4}
+T2Addrs == {None, 0, 1, 2, 3, 4, 6, 8, 12}
+T2Palette == {"u8", "u16", "u32", "u64", "bool", "f32", "u128", "cptr", "mptr", "arr8x3", "arr16x2",
+              "arr32x0", "unk2", "unk0", "N", "arrNx2", "Z", "E", "X", "pN"}
+T2Aligns == {None, 8}
+T3Sizes == {None, 0, 4, 6, 8, 12}
+T3Aligns == {None, 1, 2, 4, 8, 16}
+T3Palette == {"u8", "u16", "u32", "cptr", "N"}
+
 (* helper definitions, by name *)
 HelperN == [TypeDef("N", "pub", <<Field("a", "pub", <<>>, TNm("u16"), None, FALSE),
                                    Field("b", "pub", <<>>, TNm("u16"), None, FALSE)>>)
@@ -114,9 +125,17 @@ RegView ==
   LET ps == {p \in DOMAIN reg : reg[p].cat # "pre"}
   IN {[path |-> p, cat |-> reg[p].cat, st |-> reg[p].st, vis |-> reg[p].vis, res |-> reg[p].res] : p \in ps}
 
+(* properties the *model* violates in this terminal state.  With a faithful *)
+(* mirror these are defects of pyxis; the conformance step replays the     *)
+(* input into the real code and reports a violation only if the code does   *)
+(* it too.                                                                 *)
+PViol ==
+  (IF Inv_C01 THEN {} ELSE {"C01"}) \cup (IF Inv_C02 THEN {} ELSE {"C02"})
+  \cup (IF Inv_C03 THEN {} ELSE {"C03"})
+
 ReplayRecord ==
   [group |-> "layout", input |-> input, order |-> added, sched |-> hist,
-   accepted |-> Accepted, err |-> err,
+   accepted |-> Accepted, err |-> err, pviol |-> PViol,
    oracle |-> [realisable |-> IF PlainInput THEN Realisable(PreCrate, input, 1, TIdx) ELSE Accepted,
                plain |-> PlainInput,
                kf |-> IF KF_NonPow2Align THEN <<"C03:nonpow2-align">> ELSE <<>>,
